@@ -28,6 +28,13 @@ pub fn codec_block(out: &mut String, b: &str) {
 }
 
 pub fn gen_case(r: &mut Rng, out: &mut String) {
+    if r.chance(1, 5) {
+        // a value of the shared catalogue (gen/zoo.rs)
+        super::zoo::zoo_build(r, out, "b0");
+        writeln!(out, "dump b0").unwrap();
+        codec_block(out, "b0");
+        return;
+    }
     if r.chance(1, 4) {
         // the value comes from ANY public producer (the twelve producers of the C04 profile: shuffled inserts, ranges, carving,
         // sorted appends incl. one refused at its very end, trims, set algebra in every form, multi-operand operations,
